@@ -272,7 +272,7 @@ def summarise(agg, tier):
     q = tier == "quick"
     c = agg.counters
     return {
-        "thresholds": {"compiled_ok": 300 if q else 8000, "cpu_ops_compared": 150 if q else 5000, "with_cpu_and_npu": 80 if q else 2500, "npu_islands_ge2": 25 if q else 800,
+        "thresholds": {"compiled_ok": 300 if q else 8000, "cpu_ops_compared": 150 if q else 4000, "with_cpu_and_npu": 80 if q else 2000, "npu_islands_ge2": 25 if q else 800,
                        "interface_tensors": 700 if q else 20000},
         "coverage": {"programs": c.get("compiled_ok", 0), "disagreements_checked": len(agg.violations)},
         "rule": "source/output pairs of generated networks mixing NPU-supported operators with CPU-only ones (third-party custom ops with option bytes, NEG, FLOOR_DIV, REVERSE_V2, "
